@@ -19,7 +19,10 @@ const mEnd = simEpochMs/1000 + 3000*86400
 // genWalHistory: incarnation 0 ingests datapoints in rounds; after each round the clock advances past the
 // 1-second WAL flush timers (datapoints, metric names, meta entries). Knobs force in-line WAL appends, WAL
 // file rotation and block rotation (which deletes WAL files).
-func genWalHistory(r *rand.Rand) *plan.Plan {
+// blockRot: the history is built so that a datapoint block is rotated by size in the middle of it (small block
+// size knob, the 10 s rotation timer after the second round) and more rounds follow: the crash points after that
+// rotation have a flushed block N on disk and the datapoints of block N+1 in the WAL.
+func genWalHistory(r *rand.Rand, blockRot bool) *plan.Plan {
 	k := plan.Knobs{Sched: true, Procs: 1 + r.IntN(2), MetricsKnobs: map[string]int{}}
 	if r.IntN(2) == 0 {
 		k.MetricsKnobs["wal_block_flush"] = 3 + r.IntN(8)
@@ -27,8 +30,11 @@ func genWalHistory(r *rand.Rand) *plan.Plan {
 	if r.IntN(2) == 0 {
 		k.MetricsKnobs["max_wal_file_bytes"] = 60 + r.IntN(200)
 	}
-	if r.IntN(3) == 0 {
+	if r.IntN(3) == 0 || blockRot {
 		k.MetricsKnobs["max_block_bytes"] = 100 + r.IntN(400)
+		if blockRot {
+			k.MetricsKnobs["max_block_bytes"] = 60 + r.IntN(100)
+		}
 	}
 	p := &plan.Plan{Knobs: k, Params: map[string]any{"fs_trace": true}}
 	nMetrics := 1 + r.IntN(3)
@@ -73,7 +79,7 @@ func genWalHistory(r *rand.Rand) *plan.Plan {
 		}
 		inc.Ops = append(inc.Ops, plan.Op{Kind: "mput", Events: evs})
 		if rd < rounds-1 || r.IntN(2) == 0 {
-			if r.IntN(4) == 0 {
+			if r.IntN(4) == 0 || (blockRot && rd == 1) {
 				inc.Ops = append(inc.Ops, plan.Op{Kind: "advance", DurMs: 10_500}) // block-rotation timer too
 			} else {
 				inc.Ops = append(inc.Ops, plan.Op{Kind: "advance", DurMs: 1_100})
@@ -451,7 +457,7 @@ func init() {
 func runC10(c *Ctx) {
 	nHist, perSpace := 3, 100
 	if !c.Quick() {
-		nHist, perSpace = 6, 1<<30
+		nHist, perSpace = 12, 1<<30
 	}
 	type base struct {
 		p      *plan.Plan
@@ -463,7 +469,7 @@ func runC10(c *Ctx) {
 	bases := make([]*base, nHist)
 	c.Parallel(nHist, 0, func(i int) {
 		r := c.Rng(uint64(i) + 1)
-		p := genWalHistory(r)
+		p := genWalHistory(r, i%3 == 1)
 		p.Property = "C10"
 		p.Seed = c.Seed*1_000_003 + uint64(i)
 		b := &base{p: p, files: map[string]int64{}, intact: map[string][]string{}}
